@@ -655,10 +655,11 @@ pub fn launcher_k<K: Kind>(args: &[String]) -> i32 {
                 continue;
             }
             let out = run_dir.join(format!("w{}.json", i));
-            // thorough tier: every other worker runs the plain release profile
-            // (no debug assertions / overflow checks: wrap-around changes which
-            // path misbehaves)
-            let use_alt = alt_bin.is_some() && i % 2 == 1;
+            // every other worker (thorough) / every fourth (quick) runs the second
+            // binary: plain release profile (no debug assertions / overflow checks:
+            // wrap-around changes which path misbehaves), crate built without its
+            // default features
+            let use_alt = alt_bin.is_some() && if tier == Tier::Thorough { i % 2 == 1 } else { i % 4 == 1 };
             if use_alt {
                 alt_workers += 1;
             }
@@ -1087,7 +1088,7 @@ pub fn launcher_k<K: Kind>(args: &[String]) -> i32 {
             "payload_type_matrix": types_info,
             "e2_libfuzzer_campaign": fuzz_info,
             "workers": nworkers,
-            "workers_on_plain_release_profile": alt_workers,
+            "workers_on_plain_release_profile_and_crate_without_default_features": alt_workers,
             "layouts_per_case": if tier == Tier::Thorough { p.layouts_thorough } else { p.layouts_quick },
         },
         "assumptions": K::assumptions(),
